@@ -57,7 +57,8 @@ META = dict(
          'within 2 cells, separations at a quarter of the k-mesh period; a case = (network, data, point, oracle); non-trivial = '
          'several sites or non-uniform rates or non-zero separation',
     trusted=['scipy.special hyp1f1/expi/gamma and numpy.linalg inv/eigh inside the calculator (exercised, not modelled)'],
-    assumptions=['every connected component of the jump network percolates in all dimensions (diffusivity positive definite)',
+    assumptions=['rates of different jump classes differ by at most ~1e5 (qh^(4 emax), emax <= 7): beyond an anisotropy of ~1e7 of D the calculator refuses with "Problem isotropizing D?"',
+                 'every connected component of the jump network percolates in all dimensions (diffusivity positive definite)',
                  'jump classes list every jump with its reverse and join sites of one unordered Wyckoff pair (checked by the model)'],
 )
 
@@ -181,7 +182,7 @@ def rand_square_data(rng, nw, nj, emax):
     if rng.random() < 0.7:
         eneT = [2 * max(ene) + rng.randint(0, 2 * emax) for _ in range(nj)]
     else:
-        eneT = [rng.randint(-2 * emax, 4 * emax) for _ in range(nj)]
+        eneT = [rng.randint(-emax, 3 * emax) for _ in range(nj)]
     return dict(spre=spre, ene=ene, preT=preT, eneT=eneT)
 
 
@@ -326,8 +327,9 @@ def work(task):
                     # slows the convergence of the k-sum and is reported as an observation, not as a C10 violation
                     E[Ndiff:, :Ndiff] = 0
                     errs.append(np.abs(E).max())
+                    gmax = np.abs(gf4.g_Taylor(pvec, fnlp)).max()
                 count('tie:taylor-inverse')
-                if not errs[1] <= 0.3 * errs[0] + 1e-5:
+                if not errs[1] <= 0.3 * errs[0] + 1e-5 + 1e-11 * gmax:     # last term: cancellation noise of the 1/p^2 pole
                     worst = (qh.tolist(), errs)
             if worst is not None:
                 rec['disagree'].append(('the Taylor inverse g_Taylor(q) of BlockInvertOmegaTaylor is not the inverse of omega(q) through order 0 on %s: '
@@ -622,8 +624,8 @@ def run(ctx):
         tasks = [(names.index(n), ctx.rng.getrandbits(32), 1, 1, 3, 8, False) for n in pick]
     else:
         tasks = []
-        for rep in range(3):
-            tasks += [(i, ctx.rng.getrandbits(32), 2, 2, (3, 6, 10)[rep], 14, False) for i in range(len(NETS))]
+        for rep in range(6):
+            tasks += [(i, ctx.rng.getrandbits(32), 3, 3, (3, 5, 7)[rep % 3], 16, False) for i in range(len(NETS))]
     # big jobs first
     tasks.sort(key=lambda t: -len(NETS[t[0]][1].G) * len(NETS[t[0]][1].basis[NETS[t[0]][2]]) - (1000 if NETS[t[0]][1].dim == 3 and len(NETS[t[0]][1].G) <= 2 else 0))
     recs = _run_tasks(ctx, tasks)
@@ -635,6 +637,8 @@ def run(ctx):
     for n, L in enumerate(leans):
         compare_lean(ctx, L, answers[2 * n], answers[2 * n + 1])
     malformed(ctx)
+    for d in ctx.disagreements[:8]:
+        ctx.note('disagreement: ' + d['what'][:300])
 
 
 def search(ctx, reasons):
